@@ -99,6 +99,19 @@ def make_case(seed, tier):
                  'node': 'engine%d' % rng.randrange(2)}
             case['faults'] = [f]
         case['horizon'] = 520
+        if rng.random() < 0.5:
+            # the sub-workflow is started late (wait-before): the first
+            # integrity check (10 s after the start) finds nothing RUNNING,
+            # the task gets stuck only afterwards
+            changed = False
+            for t in case['prog']['workflows'][0]['tasks']:
+                if (t.get('body') or {}).get('kind') == 'wf' and \
+                        t.get('join') is None and not t.get('with_items'):
+                    t['wait_before'] = rng.choice([12, 25])
+                    changed = True
+            if changed:
+                case['defs'] = gen.render_program(case['prog'])
+                case['late_subwf'] = True
     case['max_steps'] = 30000
     return case
 
@@ -436,6 +449,7 @@ def probes(case, res):
         'executor_crash': st.get('fault:crash:executor', 0),
         'engine_crash': st.get('fault:crash:engine', 0),
         'integrity_repairs': st.get('probe:integrity_repair', 0),
+        'late_subwf': int(bool(case.get('late_subwf'))),
         'root_unfinished': sum(1 for w in snap['wf'].values()
                                if not w['task_execution_id'] and
                                w['state'] not in trace.TERMINAL),
